@@ -71,6 +71,11 @@ def gen(rng, budget, tier):
             yield f"c01.pipe {rng.randrange(2)} {m} {buf} {rng.choice([1, 2, 3, 7, 64, 4096])} {hexs(c)}"
         else:
             yield f"c01.e2e {m} {hexs(c)}"
+    # compressed inputs: gzip (one member, several members), .gzip, zstd — binary content, no final newline, long lines
+    for sfx in ("gz", "gzm", "gzip", "zst", "gzm"):
+        body = b"".join(bytes([rng.choice([97, 98, 0, 255, 195, 169, 32])]) * rng.choice([1, 5, 60]) + b"\n" for _ in range(rng.choice([3, 40, 400])))
+        body += rng.choice([b"", b"unterminated tail"])
+        yield f"c01.e2e 1048576 {hexs(body)} {sfx}"
     # lines around the 32 KiB transport buffer (e2e, default-sized MaxLineLength)
     for n in [32766, 32767, 32768, 40000, 70000]:
         yield f"c01.e2e 1048576 {hexs(b'a' * n + b'%' + bytes([10]) + b'tail' + bytes([10]))}"
